@@ -136,7 +136,7 @@ CLAIMED["C12"] = dict(
 )
 CLAIMED["C13"] = dict(
     text="Proof (Lean 4), for every raw sampler output, start and max (NaN and infinities included): the clamped sample is never NaN, >= 0 and <= max when set; timeouts/durations <= 24 h, limits and counter operands < 2^64; every rand_distr constructor call made by "
-         "dist_sample succeeds for validated parameters (none of the 11 unwraps nor the gen_range assertions can fire); rand's f64 uniform retry loop is modelled exactly, its result is < high and the all-zero word terminates it. Termination inside rand_distr's samplers is "
+         "dist_sample succeeds for validated parameters (none of the 11 unwraps nor the gen_range assertions can fire); rand's f64 uniform retry loop is modelled exactly, its result is < high, and promptness is a theorem: for every validated non-constant range every RNG word whose 52-bit unit value is <= 1/4 ends the loop at once (C13_uniform_quarter_terminates; all three IEEE roundings, subnormal, mixed-sign and full-width ranges), so at least 2^50+1 of the 2^52 equally likely mantissa values end each iteration whatever the discarded low bits are (C13_uniform_prompt): under a fair stream each iteration ends with probability > 1/4; the constant is sharp (C13_uniform_quarter_sharp: 1/4 + 2^-52 is rejected for adjacent doubles near the subnormal range). Termination inside rand_distr's samplers is "
          "outside the model: supervised runs (watchdog) on all families at validated corners under scripted prefixes are supporting evidence only.",
     ref="6 (C13)",
     technique="Lean 4 theorems on the clamp/cast model for arbitrary sampler outputs + exact model of rand's uniform f64/f32 conversion + differential correspondence with watchdog-supervised sampling",
